@@ -3,6 +3,7 @@ pub mod assign;
 pub mod cli;
 pub mod geom;
 pub mod linalg;
+pub mod posref;
 pub mod report;
 pub mod rng;
 pub mod sched;
